@@ -39,6 +39,8 @@ type Step struct {
 	Fill    int             `json:"fill,omitempty"`
 	Threads int             `json:"threads,omitempty"`
 	Ops     []Step          `json:"ops,omitempty"`
+	Keep    string          `json:"keep,omitempty"` // prim: keep the first result under this name
+	Name    string          `json:"name,omitempty"` // dumpkept: which kept value
 }
 
 type Result struct {
@@ -55,6 +57,7 @@ type env struct {
 	bufs map[string]*bytes.Buffer
 	msgs map[string]any
 	mods map[string]string
+	kept map[string]reflect.Value
 }
 
 func strp(s string) *string { return &s }
@@ -397,6 +400,10 @@ func (e *env) run(st Step) (res Result) {
 		for i := 0; i < 64; i++ {
 			buf.WriteByte(byte(0x5A + i))
 		}
+	case "dumpkept":
+		if v, ok := e.kept[st.Name]; ok {
+			res.Ret = dumpValue(v)
+		}
 	case "overwrite":
 		// the unread bytes of the buffer are overwritten in place (same memory, same length)
 		raw, _ := hex.DecodeString(st.Hex)
@@ -561,6 +568,12 @@ func (e *env) prim(st Step) (res Result) {
 			continue
 		}
 		rets = append(rets, dumpValue(o))
+		if st.Keep != "" && len(rets) == 1 {
+			if e.kept == nil {
+				e.kept = map[string]reflect.Value{}
+			}
+			e.kept[st.Keep] = o
+		}
 	}
 	if len(rets) == 1 {
 		res.Ret = rets[0]
